@@ -222,7 +222,7 @@ fn single_op<K: KeyT>(m: &mut Set<K>, w: &[&str], chk: &mut Vec<String>, held: &
         "sinto_par_iter" => {
             let pool = pool_of(n(1));
             let want = sorted_owned(m);
-            let old = std::mem::replace(m, HashSet::with_hasher_in(PlanBuild::default(), Ledger));
+            let old = std::mem::replace(m, HashSet::with_hasher_in(PlanBuild::default(), Ledger::fresh()));
             let got: Vec<K> = pool.install(|| old.into_par_iter().collect());
             let mut l: Vec<(u64, u64)> = got.iter().map(|k| (k.id(), k.stamp())).collect();
             l.sort();
@@ -326,7 +326,7 @@ fn single_op<K: KeyT>(m: &mut Set<K>, w: &[&str], chk: &mut Vec<String>, held: &
         }
         "len" => format!("num {}", m.len()),
         "dropmap" => {
-            let old = std::mem::replace(m, HashSet::with_hasher_in(PlanBuild::default(), Ledger));
+            let old = std::mem::replace(m, HashSet::with_hasher_in(PlanBuild::default(), Ledger::fresh()));
             drop(old);
             "unit".into()
         }
@@ -504,8 +504,8 @@ fn binary_op<K: KeyT>(a: &mut Set<K>, b: &Set<K>, w: &[&str], chk: &mut Vec<Stri
 }
 
 pub fn run_set<K: KeyT>(lines: &[String], out: &mut String) {
-    let mut a: Set<K> = HashSet::with_hasher_in(PlanBuild::default(), Ledger);
-    let mut b: Set<K> = HashSet::with_hasher_in(PlanBuild::default(), Ledger);
+    let mut a: Set<K> = HashSet::with_hasher_in(PlanBuild::default(), Ledger::fresh());
+    let mut b: Set<K> = HashSet::with_hasher_in(PlanBuild::default(), Ledger::fresh());
     let d = a.verif_dump();
     let _ = d;
     let (tsize, calign) = hashbrown::HashMap::<K, (), PlanBuild, Ledger>::verif_table_layout();
